@@ -80,6 +80,7 @@ def gen_specs(run):
     sizes = [1, 2, 3, 5, 255, 256, 257, 300, 512, 513] if quick else [1, 2, 3, 4, 7, 16, 100, 255, 256, 257, 258, 300, 511, 512, 513, 767, 768, 769, 1025, 2100]
     specs = []
     sid = 0
+    log_budget = [2500 if quick else 6000]
     for k in sizes:
         variants = [([], None)]
         positions = sorted(set([0, k - 1, min(k - 1, 255), min(k - 1, 256), rng.randrange(k), (k // 256) * 256 if k % 256 else max(0, k - 256)]))
@@ -97,7 +98,14 @@ def gen_specs(run):
             members, derived, vm = make_batch(run, rng, k, set(bad), kind)
             mode = rng.choice(["VerifyOnly", "RecoverAndVerify"])
             big = k > 40
-            verifies = [{"mode": mode, "vmembers": vm, "log": (not big) or (sid % (12 if quick else 4) == 0), "_role": "batch"}]
+            # model evaluation of a logged batch costs about 1 GB of coqc memory per 1000 members: logged big batches are budgeted
+            want_log = (not big) or (sid % (12 if quick else 4) == 0)
+            if want_log and big:
+                if log_budget[0] >= k:
+                    log_budget[0] -= k
+                else:
+                    want_log = False
+            verifies = [{"mode": mode, "vmembers": vm, "log": want_log, "_role": "batch"}]
             # a permutation of the same batch
             perm = list(range(k))
             rng.shuffle(perm)
